@@ -80,18 +80,18 @@ def run(ctx):
                     k = "hang" if o.get("hang") else "err" if o["err"] else "ranges%d" % min(len(o["ranges"] or []), 9)
                     kinds[k] = kinds.get(k, 0) + 1
                     overflow = c["end"] + (c["fetch"] or 5) >= 2**64
-                    if o.get("hang") or v[0] == 3:
-                        # non-termination / fuel exhaustion: only explained inside the overflow corner
-                        if overflow and "C20-ranges-overflow" in known:
-                            ctx.known("C20-ranges-overflow", known["C20-ranges-overflow"]["what"])
-                        else:
-                            ctx.violation("calcRangeHeight does not terminate", dict(property="C20", driver="ranges", input=c, impl=o, verdict=v))
-                    elif v[0] != 0:
-                        if overflow and "C20-ranges-overflow" in known and v[0] == 2:
-                            ctx.known("C20-ranges-overflow", known["C20-ranges-overflow"]["what"])
-                        else:
-                            ctx.violation("ranges: model/impl mismatch" if v[0] == 1 else "ranges do not partition [begin,end]",
-                                          dict(property="C20", driver="ranges", input=c, impl=o, verdict=v))
+                    rep = dict(property="C20", driver="ranges", input=c, impl=o, verdict=v)
+                    if v[0] == 0:
+                        continue
+                    if overflow and "C20-ranges-overflow" in known and (o.get("hang") or v[0] in (2, 3)):
+                        ctx.known("C20-ranges-overflow", known["C20-ranges-overflow"]["what"])
+                    elif o.get("hang") or v[0] == 3:
+                        ctx.violation("calcRangeHeight does not terminate", rep)
+                    elif v[0] == 2:
+                        ctx.violation("ranges do not partition [begin,end]", rep)
+                    else:
+                        # model and implementation differ but the implementation's answer still satisfies the property
+                        ctx.broken("correspondence:judge_ranges", "first differing case: " + json.dumps(rep))
                 ctx.extra["ranges_distribution"] = kinds
     return ctx.finish(rule="ranges: grid over (fetch,begin,end) + random spans incl. values near 2^63/2^64 + overflow corner in a child process; "
                            "non-trivial = at least two ranges returned, distinct by input triple")
